@@ -506,6 +506,9 @@ impl Prop for C06 {
     fn id(&self) -> &'static str {
         "C06"
     }
+    fn fuzz_target(&self) -> Option<&'static str> {
+        Some("tape")
+    }
     fn rule(&self) -> String {
         "(i) operator grid: every implemented operator x widths {1,2,7,8,31,32,33,63,64,65,127,128,129,130,192,200} x all pairs of ~18 corner operand values (exhaustive over the grid); (ii) tape-decoded expression DAGs without div/rem over widths {1,2-8,31-33,63-65,127-129,130-200} with sparse/dense array values, evaluated through eval_expr/eval_bv_expr/eval_array_expr and all value stores, plus short-circuit cases (value supplied for an inner node, symbols below it left undefined). Oracle: independent BigUint evaluator; canonicity = no bits above width, == canonical via PartialEq, interns to same literal. Non-trivial: grid case (each distinct op/width/operand tuple), or DAG case with >=3 operators and >=1 operand wider than 64 bits; distinct by hash of (expression, assignment).".into()
     }
